@@ -1967,3 +1967,11 @@ MA('C07', 'nested quadratic perturbations merged by accumulating into the stored
    'return proximal_quadratic_perturbation(self.functional.proximal, a=self.quadratic_coeff, u=self.linear_term)',
    'f, a, u = self.functional, self.quadratic_coeff, self.linear_term\nwhile isinstance(f, FunctionalQuadraticPerturb):\n    a += f.quadratic_coeff\n    u += f.linear_term\n    f = f.functional\nreturn proximal_quadratic_perturbation(f.proximal, a=a, u=u)',
    'FunctionalQuadraticPerturb(FunctionalQuadraticPerturb')
+MA('C01', 'copy of a Fortran-ordered discretized element re-wraps its tensor',
+   'odl/discr/discr_space.py', 'DiscretizedSpaceElement.copy',
+   'return self.space.element(self.tensor.copy())',
+   "return self.space.element(self.tensor.copy()) if self.data.flags.c_contiguous else self.space.element(self.tensor, order='F')",
+   'DiscretizedSpaceElement.copy')
+MA('C01', 'in-place broadcasting updates the aliased part last and returns the parts in that order',
+   'odl/space/pspace.py', '_broadcast_arithmetic._broadcast_arithmetic_impl',
+   'other = other.copy()', 'pass', 'operand: part 0')
